@@ -91,10 +91,14 @@ def opaque_call(ip, fn, args, kwargs, method):
     return SV(e)
 
 
-def unknown(ip, rid, hint):
-    """heap object behind a reference found in a symbolic dict"""
+def unknown(ip, rid, hint, origin=None):
+    """heap object behind a reference found in a symbolic dict.  The objects belong to the dict they
+    were read from (origin.refs), so that a snapshot of the dict keeps their old contents."""
     g = ip.ctx.ghost
-    memo = g.setdefault('unknown_objs', [])
+    if origin is not None:
+        memo = origin.refs.setdefault('list', [])
+    else:
+        memo = g.setdefault('unknown_objs', [])
     for r, o in memo:
         if r.eq(zint(rid)):
             return o
